@@ -155,6 +155,10 @@ Definition display_m (st : state) (v : value) : string :=
   | VBuiltin b => builtin_display b
   end.
 
+(* what a run shows: compared between Mechanism, Spec and implementation *)
+Inductive obs_result := ObOk | ObDead (kind first : string) | ObFuel | ObIll (w : string).
+Record obs := mkobs { ob_out : list string; ob_loads : list path; ob_res : obs_result }.
+
 Inductive res :=
 | RNormal (env : lenv) (x : xst)
 | RUnwound (hid : nat) (e : exc) (x : xst)
@@ -400,6 +404,20 @@ Section Mech.
     | _ => "ILL no main"
     end.
 
+  (* the observation of a run: printed lines, loader calls, outcome (error kind + first message line) *)
+  Definition mech_obs (fuel : nat) (core_names : list name) : obs :=
+    match prog with
+    | MOk ts :: _ =>
+      match exec_tops fuel ts 0 (mech_init core_names) with
+      | RNormal _ x => mkobs (rev (xout x)) (rev (loads (ms x))) ObOk
+      | RDead e x => mkobs (rev (xout x)) (rev (loads (ms x))) (ObDead (dead_kind e) (first_line (dead_messages e)))
+      | RUnwound _ _ x => mkobs [] [] (ObIll "unwound past the script")
+      | RFuel => mkobs [] [] ObFuel
+      | RIll w => mkobs [] [] (ObIll w)
+      end
+    | _ => mkobs [] [] (ObIll "no main")
+    end.
+
   (* the trace of the run as a final machine state: used by ModulesProofs (every run of the
      evaluator is a run of the event machine) *)
   Definition final_state (fuel : nat) (core_names : list name) : option state :=
@@ -446,8 +464,10 @@ Definition display_s (v : svalue) : string :=
 Section SpecEval.
   Variable prog : program.
   Variable startup_names : list name.
+  Variable frames_max : nat.
 
-  Definition s_import := spec_import nat (list top) (prog_loader prog) (prog_compiler prog []) startup_names.
+  Definition s_import := spec_import nat (list top) (prog_loader prog) (prog_compiler prog []).
+  Definition s_begin := spec_begin startup_names.
 
   Definition semit (x : sx) (l : string) : sx := mksx (ss x) (l :: sout x) (sfl x).
   Definition raise_s (x : sx) (k : errkind) (m : string) : sresult := QRaised (SXErr (mkerr k [m])) x.
@@ -470,132 +490,147 @@ Section SpecEval.
     | sc :: r => QNormal (((nm, v) :: sc) :: r) x
     end.
 
-  Fixpoint sexec (fuel : nat) (cur : path) (l : list stmt) (env : senv) (x : sx) {struct fuel} : sresult :=
+  (* one structural fixpoint, the same four tasks as the Mechanism evaluator (so that the two can be compared
+     fuel level by fuel level).  `cur` = the module whose source text contains the running code;
+     `depth` = number of active calls and module bodies (the main script counts). *)
+  Inductive stask :=
+  | SkExec (l : list stmt) (env : senv)
+  | SkExec1 (s : stmt) (env : senv)
+  | SkCall (env : senv) (w : svalue)
+  | SkTops (ts : list top) (src : nat).
+
+  Definition sset (cur : path) (x : sx) (nm : name) (v : svalue) : sx :=
+    mksx (set_sglobal (ss x) cur nm v) (sout x) (sfl x).
+
+  Fixpoint srun_task (fuel : nat) (cur : path) (depth : nat) (tk : stask) (x : sx) {struct fuel} : sresult :=
     match fuel with
     | O => QFuel
     | S fuel' =>
-      match l with
-      | [] => QNormal env x
-      | s :: rest =>
-        match sexec1 fuel' cur s env x with
-        | QNormal env' x' => sexec fuel' cur rest env' x'
-        | r => r
-        end
-      end
-    end
-  with sexec1 (fuel : nat) (cur : path) (s : stmt) (env : senv) (x : sx) {struct fuel} : sresult :=
-    match fuel with
-    | O => QFuel
-    | S fuel' =>
-      match s with
-      | SPrintTag t => QNormal env (semit x (tag_text t))
-      | SPrintVar v => sget cur x (var_name v) (fun w => QNormal env (semit x (display_s w)))
-      | SSet v n =>
-        sget cur x (var_name v) (fun _ => QNormal env (mksx (set_sglobal (ss x) cur (var_name v) (SNum n)) (sout x) (sfl x)))
-      | SImport p a =>
-        let nm := import_alias p a in
-        let pth := mod_path (N.to_nat p) in
-        let '(st1, d) := s_import (ss x) pth in
-        let x1 := mksx st1 (sout x) (sfl x) in
-        match d with
-        | DSame => sbind cur env x1 nm (SMod pth)
-        | DRaise e => QRaised (SXErr e) x1
-        | DRun body =>
-          match sexec_tops fuel' pth body (N.to_nat p) x1 with
-          | QNormal _ x2 =>
-            sbind cur env (mksx (spec_finish (ss x2) pth true) (sout x2) (sfl x2)) nm (SMod pth)
-          | QRaised e x2 => QRaised e (mksx (spec_finish (ss x2) pth false) (sout x2) (sfl x2))
+      match tk with
+      | SkExec l env =>
+        match l with
+        | [] => QNormal env x
+        | s :: rest =>
+          match srun_task fuel' cur depth (SkExec1 s env) x with
+          | QNormal env' x' => srun_task fuel' cur depth (SkExec rest env') x'
           | r => r
           end
         end
-      | SPrintAttr a v =>
-        sresolve cur env x (alias_name a) (fun w =>
-          match w with
-          | SMod p =>
-            match alookup (sglobals (ss x) p) (var_name v) with
-            | Some u => QNormal env (semit x (display_s u))
-            | None => raise_s x KAttribute (undefined_property (var_name v))
-            end
-          | _ => QIll "not a module"
-          end)
-      | SSetAttr a v n =>
-        sresolve cur env x (alias_name a) (fun w =>
-          match w with
-          | SMod p => QNormal env (mksx (set_sglobal (ss x) p (var_name v) (SNum n)) (sout x) (sfl x))
-          | _ => QIll "not a module"
-          end)
-      | SCall f => sget cur x (fn_name f) (fun w => scall fuel' env x w)
-      | SCallAttr a f =>
-        sresolve cur env x (alias_name a) (fun w =>
-          match w with
-          | SMod p =>
-            match alookup (sglobals (ss x) p) (fn_name f) with
-            | Some u => scall fuel' env x u
-            | None => raise_s x KAttribute (undefined_property (fn_name f))
-            end
-          | _ => QIll "not a module"
-          end)
-      | SThrow => QRaised (SXVal (SStr thrown_text)) x
-      | SUseBuiltin k =>
-        match k with
-        | 0%N => QNormal env (semit x "<class Num>")
-        | 1%N => sget cur x "Vec" (fun w => QNormal env (semit x (display_s w)))
-        | 2%N => QNormal env (semit x "<class BuiltIn>")
-        | _ => sget cur x "RuntimeError" (fun w => QNormal env (semit x (display_s w)))
-        end
-      | STry body =>
-        match sexec fuel' cur body ([] :: env) x with
-        | QNormal _ x1 => QNormal env x1
-        | QRaised e x1 =>
-          let cls := match e with SXErr er => kind_class (e_kind er) | SXVal _ => "String" end in
-          let msg := match e with SXErr er => first_line (e_msgs er) | SXVal v => display_s v end in
-          QNormal env (semit (semit x1 ("<class " ++ cls ++ ">")) msg)
-        | r => r
-        end
-      | SBlock body =>
-        match sexec fuel' cur body ([] :: env) x with
-        | QNormal _ x1 => QNormal env x1
-        | r => r
-        end
-      end
-    end
-  with scall (fuel : nat) (env : senv) (x : sx) (w : svalue) {struct fuel} : sresult :=
-    match fuel with
-    | O => QFuel
-    | S fuel' =>
-      match w with
-      | SFn p key =>
-        match find_fn prog key with
-        | Some body =>
-          (* the function runs in the module it was DEFINED in *)
-          match sexec fuel' p body [[]] x with
+      | SkExec1 s env =>
+        match s with
+        | SPrintTag t => sget cur x "print" (fun _ => QNormal env (semit x (tag_text t)))
+        | SPrintVar v =>
+          sget cur x "print" (fun _ => sget cur x (var_name v) (fun w => QNormal env (semit x (display_s w))))
+        | SSet v n => sget cur x (var_name v) (fun _ => QNormal env (sset cur x (var_name v) (SNum n)))
+        | SImport p a =>
+          let nm := import_alias p a in
+          let pth := mod_path (N.to_nat p) in
+          let '(st1, d) := s_import (ss x) pth in
+          let x1 := mksx st1 (sout x) (sfl x) in
+          match d with
+          | DSame => sbind cur env x1 nm (SMod pth)
+          | DRaise e => QRaised (SXErr e) x1
+          | DRun body =>
+            if Nat.eqb depth frames_max then QRaised (SXErr (mkerr KIndex [stack_overflow_msg])) x1
+            else
+              let x1' := mksx (s_begin (ss x1) pth) (sout x1) (sfl x1) in
+              match srun_task fuel' pth (S depth) (SkTops body (N.to_nat p)) x1' with
+              | QNormal _ x2 => sbind cur env (mksx (spec_finish (ss x2) pth true) (sout x2) (sfl x2)) nm (SMod pth)
+              | QRaised e x2 => QRaised e (mksx (spec_finish (ss x2) pth false) (sout x2) (sfl x2))
+              | r => r
+              end
+          end
+        | SPrintAttr a v =>
+          sget cur x "print" (fun _ =>
+          sresolve cur env x (alias_name a) (fun w =>
+            match w with
+            | SMod p =>
+              match alookup (sglobals (ss x) p) (var_name v) with
+              | Some u => QNormal env (semit x (display_s u))
+              | None => raise_s x KAttribute (undefined_property (var_name v))
+              end
+            | _ => QIll "not a module"
+            end))
+        | SSetAttr a v n =>
+          sresolve cur env x (alias_name a) (fun w =>
+            match w with
+            | SMod p => QNormal env (sset p x (var_name v) (SNum n))
+            | _ => QIll "not a module"
+            end)
+        | SCall f => sget cur x (fn_name f) (fun w => srun_task fuel' cur depth (SkCall env w) x)
+        | SCallAttr a f =>
+          sresolve cur env x (alias_name a) (fun w =>
+            match w with
+            | SMod p =>
+              match alookup (sglobals (ss x) p) (fn_name f) with
+              | Some u => srun_task fuel' cur depth (SkCall env u) x
+              | None => raise_s x KAttribute (undefined_property (fn_name f))
+              end
+            | _ => QIll "not a module"
+            end)
+        | SThrow => QRaised (SXVal (SStr thrown_text)) x
+        | SUseBuiltin k =>
+          sget cur x "print" (fun _ =>
+            match k with
+            | 0%N => sget cur x "type" (fun _ => QNormal env (semit x "<class Num>"))
+            | 1%N => sget cur x "Vec" (fun w => QNormal env (semit x (display_s w)))
+            | 2%N => sget cur x "type" (fun _ => sget cur x "print" (fun _ => QNormal env (semit x "<class BuiltIn>")))
+            | _ => sget cur x "RuntimeError" (fun w => QNormal env (semit x (display_s w)))
+            end)
+        | STry body =>
+          match srun_task fuel' cur depth (SkExec body ([] :: env)) x with
+          | QNormal _ x1 => QNormal env x1
+          | QRaised e x1 =>
+            sget cur x1 "print" (fun _ => sget cur x1 "type" (fun _ =>
+              let cls := match e with SXErr er => kind_class (e_kind er) | SXVal _ => "String" end in
+              let x2 := semit x1 ("<class " ++ cls ++ ">") in
+              sget cur x2 "type" (fun _ => sget cur x2 "String" (fun _ => sget cur x2 "print" (fun _ =>
+                let msg := match e with SXErr er => first_line (e_msgs er) | SXVal v => display_s v end in
+                QNormal env (semit x2 msg))))))
+          | r => r
+          end
+        | SBlock body =>
+          match srun_task fuel' cur depth (SkExec body ([] :: env)) x with
           | QNormal _ x1 => QNormal env x1
           | r => r
           end
-        | None => QIll "no such function"
         end
-      | _ => QIll "not a function"
-      end
-    end
-  with sexec_tops (fuel : nat) (cur : path) (ts : list top) (src : nat) (x : sx) {struct fuel} : sresult :=
-    match fuel with
-    | O => QFuel
-    | S fuel' =>
-      match ts with
-      | [] => QNormal [] x
-      | t :: rest =>
-        let r :=
-          match t with
-          | TStmt s => sexec1 fuel' cur s [] x
-          | TDef v n => QNormal [] (mksx (set_sglobal (ss x) cur (var_name v) (SNum n)) (sout x) (sfl x))
-          | TFn f _ => QNormal [] (mksx (set_sglobal (ss x) cur (fn_name f) (SFn cur (fn_key src f))) (sout x) (sfl x))
-          end in
-        match r with
-        | QNormal _ x' => sexec_tops fuel' cur rest src x'
-        | r' => r'
+      | SkCall env w =>
+        match w with
+        | SFn p key =>
+          match find_fn prog key with
+          | Some body =>
+            if Nat.eqb depth frames_max then raise_s x KIndex stack_overflow_msg
+            else
+              (* the function runs in the module it was DEFINED in *)
+              match srun_task fuel' p (S depth) (SkExec body [[]]) x with
+              | QNormal _ x1 => QNormal env x1
+              | r => r
+              end
+          | None => QIll "no such function"
+          end
+        | _ => QIll "not a function"
+        end
+      | SkTops ts src =>
+        match ts with
+        | [] => QNormal [] x
+        | t :: rest =>
+          let r :=
+            match t with
+            | TStmt s => srun_task fuel' cur depth (SkExec1 s []) x
+            | TDef v n => QNormal [] (sset cur x (var_name v) (SNum n))
+            | TFn f _ => QNormal [] (sset cur x (fn_name f) (SFn cur (fn_key src f)))
+            end in
+          match r with
+          | QNormal _ x' => srun_task fuel' cur depth (SkTops rest src) x'
+          | r' => r'
+          end
         end
       end
     end.
+
+  Definition sexec_tops (fuel : nat) (cur : path) (ts : list top) (src : nat) (x : sx) : sresult :=
+    srun_task fuel cur 1 (SkTops ts src) x.
 
   Definition show_spec (x : sx) (result : string) : string :=
     show_sep "$" (fun s => s) (rev (sout x)) ++ "#" ++ show_sep "," (fun s => s) (rev (s_loads (ss x))) ++ "#" ++ result ++ "#" ++ sfl x.
@@ -612,6 +647,21 @@ Section SpecEval.
       | QIll w => "ILL " ++ w
       end
     | _ => "ILL no main"
+    end.
+Definition spec_obs (fuel : nat) : obs :=
+    match prog with
+    | MOk ts :: _ =>
+      match sexec_tops fuel main_path ts 0 (mksx (spec_init startup_names) [] "") with
+      | QNormal _ x => mkobs (rev (sout x)) (rev (s_loads (ss x))) ObOk
+      | QRaised (SXErr er) x =>
+        mkobs (rev (sout x)) (rev (s_loads (ss x)))
+              (ObDead (kind_after_roundtrip (e_kind er)) ("Unhandled " ++ kind_class (e_kind er) ++ ": " ++ first_line (e_msgs er)))
+      | QRaised (SXVal v) x =>
+        mkobs (rev (sout x)) (rev (s_loads (ss x))) (ObDead "RuntimeError" ("Unhandled exception: " ++ display_s v))
+      | QFuel => mkobs [] [] ObFuel
+      | QIll w => mkobs [] [] (ObIll w)
+      end
+    | _ => mkobs [] [] (ObIll "no main")
     end.
 End SpecEval.
 
@@ -811,6 +861,6 @@ Definition run_case (cm : list (list (list string))) (builtin_names core_names :
   let prog := parse_prog w in
   if wf_prog prog then
     eval_mech prog cm builtin_names (N.to_nat frames_max) hit_checks_loading builtins_guarded default_fuel core_names
-    ++ "@" ++ eval_spec prog (builtin_names ++ core_names) default_fuel
+    ++ "@" ++ eval_spec prog (builtin_names ++ core_names) (N.to_nat frames_max) default_fuel
     ++ "@" ++ render prog
   else "ILLFORMED".
